@@ -4,6 +4,7 @@ import (
 	"bytes"
 	"fmt"
 	"regexp"
+	"sort"
 	"strings"
 	"testing"
 )
@@ -91,12 +92,43 @@ func genC03Try(r *Rng, idx int, tier string) *Scenario {
 			ns = r.Range(7, 20)
 		}
 	}
+	// ldap, rootDSE class: a configured rootDSE with several values per attribute; sessions - plain ones and ones that
+	// upgrade with StartTLS first - ask for the rootDSE (the reply is built from the lists all sessions share)
+	dse := pn == "ldap" && r.Chance(0.4)
+	if dse {
+		ext := []string{"1.3.6.1.4.1.1466.20037", "1.3.6.1.4.1.4203.1.11.3", "1.3.6.1.4.1.4203.1.11.1", "1.3.6.1.1.8"}
+		for i := len(ext) - 1; i > 0; i-- {
+			j := r.Intn(i + 1)
+			ext[i], ext[j] = ext[j], ext[i]
+		}
+		ext = ext[:r.Range(2, 4)]
+		var q []string
+		for _, e := range ext {
+			q = append(q, tomlStr(e))
+		}
+		cfg := "supported-extension=[" + strings.Join(q, ",") + "]\nnaming-contexts=[\"dc=example,dc=com\",\"dc=ad,dc=example,dc=com\"]\nvendor-name=[\"HT Directory\",\"second\"]\nobjectclass=[\"dcObject\",\"organization\"]\n"
+		sc.Config = strings.Replace(sc.Config, "\n[[port]]", "\n"+cfg+"\n[[port]]", 1)
+		sc.Params["dse"] = true
+	}
 	var tags []string
 	for i := 0; i < ns; i++ {
 		tag := fmt.Sprintf("q%c%s", 'a'+i, r.word(4, 4))
 		tags = append(tags, tag)
 		n := r.Range(1, 3)
 		cmds := p.Gen(r, tag, n)
+		if dse {
+			search := func(id int) pcmd {
+				op := bSeq(0x40|0x20|3, bOct(""), bInt(0x0a, 0), bInt(0x0a, 0), bInt(0x02, 0), bInt(0x02, 0), bBool(r.Chance(0.2)), bStr(0x80|7, "objectClass"), bSeq(0x30))
+				return pcmd{Data: bSeq(0x30, bInt(0x02, int64(id)), op).enc(false), Note: "rootDSE"}
+			}
+			if r.Chance(0.5) {
+				cmds = cmds[:r.Intn(len(cmds)+1)]
+			}
+			cmds = append([]pcmd{search(7000 + i)}, cmds...)
+			if r.Chance(0.6) {
+				cmds = append(cmds, search(7100+i))
+			}
+		}
 		if pn == "ftp" && r.Chance(0.6) {
 			// logged-in sessions with their own working directory
 			cmds = nil
@@ -119,6 +151,10 @@ func genC03Try(r *Rng, idx int, tier string) *Scenario {
 		}
 		if (pn == "ftp" || pn == "smtp") && r.Chance(0.4) {
 			cmds = append(cmds, pcmd{Data: []byte("QUIT\r\n"), Note: "QUIT"})
+		}
+		if dse && r.Chance(0.45) {
+			req := bSeq(0x30, bInt(0x02, int64(9000+i)), bSeq(0x77, bStr(0x80, "1.3.6.1.4.1.1466.20037"))).enc(false)
+			a.Ops = append(a.Ops, SendOp(req, nil, "StartTLS"), Op{K: "starttls"})
 		}
 		if (pn == "ftp" || pn == "smtp") && r.Chance(0.2) {
 			// this session upgrades to TLS in band first; the others (plain or TLS) run beside it
@@ -185,8 +221,93 @@ func genC03Try(r *Rng, idx int, tier string) *Scenario {
 			sc.Class += "/enum"
 		}
 	}
+	if dse {
+		sc.Class += "/rootdse"
+	}
 	sc.DrainMs = 61000
 	return sc
+}
+
+// berTLV splits one BER element off b (definite lengths, tags < 31): header length, total length, ok.
+func berTLV(b []byte) (hl, tl int, ok bool) {
+	if len(b) < 2 || b[0]&0x1f == 0x1f {
+		return 0, 0, false
+	}
+	n := int(b[1])
+	hl = 2
+	if n >= 0x80 {
+		k := n & 0x7f
+		if k == 0 || k > 4 || len(b) < 2+k {
+			return 0, 0, false
+		}
+		n = 0
+		for _, x := range b[2 : 2+k] {
+			n = n<<8 | int(x)
+		}
+		hl = 2 + k
+	}
+	if n < 0 || hl+n > len(b) {
+		return 0, 0, false
+	}
+	return hl, hl + n, true
+}
+
+// ldapCanon renders a stream of LDAP messages with the attribute list of every search result entry sorted: the
+// service builds an entry from a map, so the order of its attributes differs from reply to reply; the order of
+// the values of one attribute is the configured one and is kept.
+func ldapCanon(b []byte) string {
+	var sb strings.Builder
+	for len(b) > 0 {
+		hl, tl, ok := berTLV(b)
+		if !ok || b[0] != 0x30 {
+			fmt.Fprintf(&sb, "raw %x\n", b)
+			break
+		}
+		msg := b[hl:tl]
+		b = b[tl:]
+		ihl, itl, ok := berTLV(msg) // message id
+		if !ok || itl >= len(msg) || msg[itl] != 0x64 {
+			fmt.Fprintf(&sb, "msg %x\n", msg)
+			continue
+		}
+		_ = ihl
+		op := msg[itl:]
+		ohl, otl, ok := berTLV(op)
+		if !ok {
+			fmt.Fprintf(&sb, "msg %x\n", msg)
+			continue
+		}
+		body := op[ohl:otl]
+		_, dtl, ok := berTLV(body) // object name
+		if !ok || dtl >= len(body) || body[dtl] != 0x30 {
+			fmt.Fprintf(&sb, "msg %x\n", msg)
+			continue
+		}
+		ahl, atl, ok := berTLV(body[dtl:])
+		if !ok {
+			fmt.Fprintf(&sb, "msg %x\n", msg)
+			continue
+		}
+		attrs := body[dtl+ahl : dtl+atl]
+		var list []string
+		bad := false
+		for len(attrs) > 0 {
+			_, t, ok := berTLV(attrs)
+			if !ok {
+				bad = true
+				break
+			}
+			list = append(list, fmt.Sprintf("%x", attrs[:t]))
+			attrs = attrs[t:]
+		}
+		if bad {
+			fmt.Fprintf(&sb, "msg %x\n", msg)
+			continue
+		}
+		sort.Strings(list)
+		fmt.Fprintf(&sb, "entry id=%x dn=%x attrs=%s rest=%x %x\n", msg[:itl], body[:dtl], strings.Join(list, ","), body[dtl+atl:], op[otl:])
+	}
+	return sb.String()
 }
 
 var c03Skip = map[string]bool{
@@ -204,6 +325,9 @@ func c03Transcript(pn string, b []byte, tmp string) string {
 		// the passive port is drawn at random; the address announced is the connection's own
 		s = ftpPasvRe.ReplaceAllString(s, "($1,P,P)")
 		return canonLines([]byte(s)) // FEAT lists its extensions in map order
+	}
+	if pn == "ldap" {
+		return ldapCanon(b)
 	}
 	return string(b)
 }
